@@ -20,8 +20,13 @@ res["valid_seed"] = res["patch_applies_to_head"] and res["demo_rc_on_mutant"] no
 dst = "/verif/seeded/%s-%s" % (pid, m)
 os.makedirs(dst, exist_ok=True)
 for f in ("patch.diff", "demo.py"):
-    shutil.copy(os.path.join(src, f), os.path.join(dst, f))
+    if os.path.abspath(src) != os.path.abspath(dst):
+        shutil.copy(os.path.join(src, f), os.path.join(dst, f))
 meta = json.load(open(os.path.join(src, "meta.json")))
+if "coordinator_confirmation" in meta and not meta["coordinator_confirmation"].get("caught") and res["caught"]:
+    meta["first_run"] = {"caught": False, "check_lines": meta["coordinator_confirmation"].get("check_lines")}
+    if len(sys.argv) > 4:
+        meta["closed_after_strengthening"] = sys.argv[4]
 meta["coordinator_confirmation"] = res
 json.dump(meta, open(os.path.join(dst, "meta.json"), "w"), indent=1)
 print("caught" if res["caught"] else "MISSED", "valid" if res["valid_seed"] else "INVALID-SEED")
